@@ -1590,7 +1590,7 @@ theorem host_valid_repr (h : HostAddr) (hw : h.WellTyped) (hv : h.wireValid = .o
 def StdPathM.Representable (p : StdPathM) : Prop :=
   1 ≤ p.segments.length ∧ p.segments.length ≤ 3 ∧
   (∀ s ∈ p.segments, 1 ≤ s.hops.length ∧ s.hops.length ≤ 63) ∧
-  p.currHop < p.hopCount ∧ p.currHop ≤ 63 ∧ p.currInfo < p.segments.length
+  p.currHop < p.hopCount ∧ p.currHop ≤ 63 ∧ p.currInfo < p.segments.length ∧ p.hopCount ≤ 64
 
 def DpPath.Representable : DpPath → Prop
   | .standard p => p.Representable
@@ -1616,13 +1616,13 @@ def PacketM.Representable (p : PacketM) : Prop :=
 theorem std_valid_repr (p : StdPathM) (hv : p.wireValid = .ok ()) : p.Representable := by
   unfold StdPathM.wireValid at hv
   repeat (split at hv <;> try contradiction)
-  rename_i h1 h2 h3 h4 h5 h6 _ hfind
+  rename_i h1 h2 h3 h4 h5 h5b h6 _ hfind
   have e3 : StdPathMeta.MAX_SEGMENTS = 3 := by decide
   have e63 : StdPathMeta.MAX_TOTAL_HOPS = 63 := by decide
   have e63' : StdPathMeta.MAX_SEGMENT_HOPS = 63 := by decide
   have hne : p.segments.length ≠ 0 := by
     intro h0; apply h3; simp [List.eq_nil_of_length_eq_zero h0]
-  refine ⟨by omega, by omega, ?_, by omega, by omega, by omega⟩
+  refine ⟨by omega, by omega, ?_, by omega, by omega, by omega, by omega⟩
   intro s hs
   have := List.find?_eq_none.1 hfind s hs
   simp only [Bool.or_eq_true, decide_eq_true_eq, not_or, Nat.not_lt] at this
@@ -1712,5 +1712,432 @@ theorem encode_ok_representable (p : PacketM) (hw : p.WellTyped) (b : Bytes) (h 
   have eflow : CommonHeader.FLOW_ID_RNG.maxUint = 2 ^ 20 - 1 := by decide
   exact ⟨by omega, by omega, by omega, by omega, host_valid_repr _ hw.dst hdst, host_valid_repr _ hw.src hsrc,
     path_valid_repr _ hw.ptype hh, payload_valid_repr _ hp⟩
+
+end ScionVerif.Packet
+
+/-! # Field codecs: writeFields frame rule, info / hop field and standard path round trips -/
+
+namespace ScionVerif
+open ScionVerif.Packet
+
+/-- every written range is well-formed, inside a buffer of `n` bytes, and either `r` itself or disjoint from `r` -/
+def okFor (rs : List BitRange) (n : Nat) (r : BitRange) : Bool :=
+  rs.all (fun w => decide (w.wf ∧ w.byteHi ≤ n ∧ (w = r ∨ w.disjoint r)))
+
+/-- the value of range `r` after the writes `ws` (the last write to `r` wins) -/
+def finalVal (ws : List (BitRange × Nat)) (r : BitRange) (init : Nat) : Nat :=
+  ws.foldl (fun acc w => if w.1 = r then w.2 % 2 ^ r.width else acc) init
+
+/-- every range is well-formed and inside a buffer of `n` bytes -/
+def allIn (rs : List BitRange) (n : Nat) : Bool := rs.all (fun w => decide (w.wf ∧ w.byteHi ≤ n))
+
+theorem writeFields_length (buf : Bytes) (ws : List (BitRange × Nat))
+    (h : allIn (ws.map (·.1)) buf.length = true) : (writeFields buf ws).length = buf.length := by
+  induction ws generalizing buf with
+  | nil => rfl
+  | cons w ws ih =>
+    simp only [allIn, List.map_cons, List.all_cons, Bool.and_eq_true, decide_eq_true_eq] at h
+    obtain ⟨⟨hw1, hw2⟩, hrest⟩ := h
+    have hl := writeBits_length buf w.1 w.2 hw1 hw2
+    simp only [writeFields, List.foldl_cons] at ih ⊢
+    rw [ih (writeBits buf w.1 w.2) (by rw [hl]; simpa [allIn] using hrest), hl]
+
+theorem readBits_writeFields (buf : Bytes) (ws : List (BitRange × Nat)) (r : BitRange)
+    (hr : r.wf) (hrb : r.byteHi ≤ buf.length) (h : okFor (ws.map (·.1)) buf.length r = true) :
+    readBits (writeFields buf ws) r = finalVal ws r (readBits buf r) := by
+  induction ws generalizing buf with
+  | nil => rfl
+  | cons w ws ih =>
+    simp only [okFor, List.map_cons, List.all_cons, Bool.and_eq_true, decide_eq_true_eq] at h
+    obtain ⟨⟨hw1, hw2, hw3⟩, hrest⟩ := h
+    have hl := writeBits_length buf w.1 w.2 hw1 hw2
+    simp only [writeFields, finalVal, List.foldl_cons] at ih ⊢
+    rw [ih (writeBits buf w.1 w.2) (by rw [hl]; exact hrb) (by rw [hl]; simpa [okFor] using hrest)]
+    congr 1
+    by_cases he : w.1 = r
+    · simp only [he, if_true]
+      rw [← he]; exact readBits_writeBits_same buf w.1 w.2 hw1 hw2
+    · simp only [he, if_false]
+      rcases hw3 with hw3 | hw3
+      · exact absurd hw3 he
+      · exact readBits_writeBits_disjoint buf w.1 r w.2 hw1 hw2 hr hrb hw3
+
+theorem bitsNat_replicate_false (n : Nat) : bitsNat (List.replicate n false) = 0 := by
+  induction n with
+  | zero => rfl
+  | succ k ih => rw [List.replicate_succ']; rw [bitsNat_snoc, ih]; rfl
+
+theorem bitsOf_zeros (n : Nat) : bitsOf (zeros n) = List.replicate (8 * n) false := by
+  induction n with
+  | zero => rfl
+  | succ k ih =>
+    simp only [zeros, List.replicate_succ, bitsOf] at ih ⊢
+    rw [ih]
+    have : byteBits 0 = List.replicate 8 false := by decide
+    rw [this, List.replicate_append_replicate]; congr 1; omega
+
+theorem readBits_zeros (n : Nat) (r : BitRange) (hr : r.wf) (hb : r.byteHi ≤ n) : readBits (zeros n) r = 0 := by
+  rw [readBits_spec _ _ hr (by simp [zeros]; exact hb), bitsOf_zeros]
+  have : ((List.replicate (8 * n) false).drop r.start).take r.width = List.replicate (min r.width (8 * n - r.start)) false := by
+    simp [List.drop_replicate, List.take_replicate]
+  rw [this, bitsNat_replicate_false]
+
+theorem zeros_length (n : Nat) : (zeros n).length = n := by simp [zeros]
+
+/-- reading two adjacent ranges as one -/
+theorem readBits_union (buf : Bytes) (a b c : Nat) (hab : a ≤ b) (hbc : b ≤ c) (hb : (BitRange.mk a c).byteHi ≤ buf.length) :
+    readBits buf ⟨a, c⟩ = readBits buf ⟨a, b⟩ * 2 ^ (c - b) + readBits buf ⟨b, c⟩ := by
+  have h1 : (BitRange.mk a b).byteHi ≤ buf.length := by
+    unfold BitRange.byteHi at *; simp only at *; omega
+  have h2 : (BitRange.mk b c).byteHi ≤ buf.length := hb
+  have w1 : (BitRange.mk a c).wf := by show a ≤ c; omega
+  have w2 : (BitRange.mk a b).wf := hab
+  have w3 : (BitRange.mk b c).wf := hbc
+  rw [readBits_spec _ _ w1 hb, readBits_spec _ _ w2 h1, readBits_spec _ _ w3 h2]
+  simp only [BitRange.width]
+  have hlen := bitsOf_length buf
+  have hs : c ≤ 8 * buf.length := by
+    have := (BitRange.mk a c).stop_le; simp only at this; omega
+  have : ((bitsOf buf).drop a).take (c - a) = ((bitsOf buf).drop a).take (b - a) ++ ((bitsOf buf).drop b).take (c - b) := by
+    apply List.ext_getElem?
+    intro i
+    simp only [List.getElem?_take, List.getElem?_drop, List.getElem?_append]
+    simp only [List.length_take, List.length_drop]
+    by_cases h : i < b - a
+    · have : i < c - a := by omega
+      have h' : i < min (b - a) ((bitsOf buf).length - a) := by rw [hlen]; omega
+      simp [h, this, h']
+    · have h' : ¬ i < min (b - a) ((bitsOf buf).length - a) := by rw [hlen]; omega
+      have e : min (b - a) ((bitsOf buf).length - a) = b - a := by rw [hlen]; omega
+      simp only [h, h', if_false, e]
+      by_cases h2 : i < c - a
+      · have : i - (b - a) < c - b := by omega
+        simp only [h2, this, if_true]
+        congr 1; omega
+      · have : ¬ i - (b - a) < c - b := by omega
+        simp only [h2, this, if_false]
+  rw [this, bitsNat_append]
+  have e : (((bitsOf buf).drop b).take (c - b)).length = c - b := by
+    simp only [List.length_take, List.length_drop]; rw [hlen]; omega
+  rw [e]
+
+end ScionVerif
+
+namespace ScionVerif.Packet
+open ScionVerif ScionVerif.Layout ScionVerif.Generated.Layout ScionVerif.Generated.AddrType
+
+def InfoFieldM.WellTyped (i : InfoFieldM) : Prop := i.flags < 256 ∧ i.segId < 65536 ∧ i.timestamp < 4294967296
+def HopFieldM.WellTyped (h : HopFieldM) : Prop :=
+  h.flags < 256 ∧ h.expTime < 256 ∧ h.consIngress < 65536 ∧ h.consEgress < 65536 ∧ h.mac.length = 6
+
+theorem encodeInfo_length (i : InfoFieldM) : (encodeInfo i).length = InfoField.SIZE_BYTES := by
+  unfold encodeInfo
+  rw [writeFields_length _ _ (by simp only [List.map]; decide), zeros_length]
+
+theorem decodeInfo_encodeInfo (i : InfoFieldM) (h : i.WellTyped) : decodeInfo (encodeInfo i) = i := by
+  obtain ⟨h1, h2, h3⟩ := h
+  unfold decodeInfo encodeInfo
+  rw [readBits_writeFields _ _ InfoField.FLAGS_RNG (by decide) (by decide) (by simp only [List.map]; decide),
+      readBits_writeFields _ _ InfoField.SEGMENT_ID_RNG (by decide) (by decide) (by simp only [List.map]; decide),
+      readBits_writeFields _ _ InfoField.TIMESTAMP_RNG (by decide) (by decide) (by simp only [List.map]; decide)]
+  simp only [finalVal, List.foldl_cons, List.foldl_nil]
+  simp (config := {decide := true}) only [InfoField.FLAGS_RNG, InfoField.RSV_RNG, InfoField.SEGMENT_ID_RNG, InfoField.TIMESTAMP_RNG,
+    BitRange.mk.injEq, BitRange.width, if_true, if_false]
+  cases i
+  simp only [InfoFieldM.mk.injEq] at *
+  omega
+
+
+theorem writeAt_length' (buf p : Bytes) (off : Nat) (h : off + p.length ≤ buf.length) :
+    (writeAt buf off p).length = buf.length := by
+  unfold writeAt; simp only [List.length_append, List.length_take, List.length_drop]; omega
+
+theorem readBits_writeAt_before (buf p : Bytes) (off : Nat) (r : BitRange) (hr : r.wf) (hb : r.byteHi ≤ off)
+    (ho : off ≤ buf.length) : readBits (writeAt buf off p) r = readBits buf r := by
+  unfold writeAt
+  rw [List.append_assoc, readBits_append_left _ _ _ hr (by simp; omega), readBits_take _ _ _ hr hb]
+
+theorem writeAt_slice (buf p : Bytes) (off : Nat) (ho : off ≤ buf.length) :
+    ((writeAt buf off p).drop off).take p.length = p := by
+  unfold writeAt
+  have : (buf.take off).length = off := by simp; omega
+  rw [List.append_assoc, List.drop_append_of_le_length (by omega), List.drop_of_length_le (by omega),
+    List.nil_append, List.take_append_of_le_length (Nat.le_refl _), List.take_length]
+
+theorem encodeHop_length (h : HopFieldM) (hw : h.WellTyped) : (encodeHop h).length = HopField.SIZE_BYTES := by
+  unfold encodeHop
+  have hl : (writeFields (zeros HopField.SIZE_BYTES) [(HopField.FLAGS_RNG, h.flags), (HopField.EXP_TIME_RNG, h.expTime),
+      (HopField.CONS_INGRESS_RNG, h.consIngress), (HopField.CONS_EGRESS_RNG, h.consEgress)]).length = HopField.SIZE_BYTES := by
+    rw [writeFields_length _ _ (by simp only [List.map]; decide), zeros_length]
+  rw [writeAt_length' _ _ _ (by rw [hl, hw.2.2.2.2]; decide), hl]
+
+theorem decodeHop_encodeHop (h : HopFieldM) (hw : h.WellTyped) : decodeHop (encodeHop h) = h := by
+  obtain ⟨h1, h2, h3, h4, h5⟩ := hw
+  have hl : (writeFields (zeros HopField.SIZE_BYTES) [(HopField.FLAGS_RNG, h.flags), (HopField.EXP_TIME_RNG, h.expTime),
+      (HopField.CONS_INGRESS_RNG, h.consIngress), (HopField.CONS_EGRESS_RNG, h.consEgress)]).length = HopField.SIZE_BYTES := by
+    rw [writeFields_length _ _ (by simp only [List.map]; decide), zeros_length]
+  have hoff : HopField.MAC_RNG.byteLo ≤ HopField.SIZE_BYTES := by decide
+  unfold decodeHop encodeHop
+  rw [readBits_writeAt_before _ _ _ HopField.FLAGS_RNG (by decide) (by decide) (by rw [hl]; exact hoff),
+      readBits_writeAt_before _ _ _ HopField.EXP_TIME_RNG (by decide) (by decide) (by rw [hl]; exact hoff),
+      readBits_writeAt_before _ _ _ HopField.CONS_INGRESS_RNG (by decide) (by decide) (by rw [hl]; exact hoff),
+      readBits_writeAt_before _ _ _ HopField.CONS_EGRESS_RNG (by decide) (by decide) (by rw [hl]; exact hoff)]
+  rw [readBits_writeFields _ _ HopField.FLAGS_RNG (by decide) (by decide) (by simp only [List.map]; decide),
+      readBits_writeFields _ _ HopField.EXP_TIME_RNG (by decide) (by decide) (by simp only [List.map]; decide),
+      readBits_writeFields _ _ HopField.CONS_INGRESS_RNG (by decide) (by decide) (by simp only [List.map]; decide),
+      readBits_writeFields _ _ HopField.CONS_EGRESS_RNG (by decide) (by decide) (by simp only [List.map]; decide)]
+  have hmac : HopField.MAC_RNG.byteHi - HopField.MAC_RNG.byteLo = h.mac.length := by rw [h5]; decide
+  rw [hmac, writeAt_slice _ _ _ (by rw [hl]; exact hoff)]
+  simp only [finalVal, List.foldl_cons, List.foldl_nil]
+  simp (config := {decide := true}) only [HopField.FLAGS_RNG, HopField.EXP_TIME_RNG, HopField.CONS_INGRESS_RNG,
+    HopField.CONS_EGRESS_RNG, BitRange.mk.injEq, BitRange.width, if_true, if_false]
+  rw [Nat.mod_eq_of_lt (by omega : h.flags < 2 ^ (8 - 0)), Nat.mod_eq_of_lt (by omega : h.expTime < 2 ^ (16 - 8)),
+    Nat.mod_eq_of_lt (by omega : h.consIngress < 2 ^ (32 - 16)), Nat.mod_eq_of_lt (by omega : h.consEgress < 2 ^ (48 - 32))]
+
+
+
+theorem chunks_flatten (n : Nat) (l : List Bytes) (rest : Bytes) (h : ∀ x ∈ l, x.length = n) :
+    chunks n l.length (l.flatten ++ rest) = l := by
+  induction l with
+  | nil => rfl
+  | cons x xs ih =>
+    have hx := h x (List.mem_cons_self)
+    simp only [List.length_cons, chunks, List.flatten_cons, List.append_assoc]
+    rw [List.take_append_of_le_length (by omega), List.take_of_length_le (by omega),
+      List.drop_append_of_le_length (by omega), List.drop_of_length_le (by omega), List.nil_append,
+      ih (fun y hy => h y (List.mem_cons_of_mem _ hy))]
+
+theorem flatten_length_const (n : Nat) (l : List Bytes) (h : ∀ x ∈ l, x.length = n) : l.flatten.length = n * l.length := by
+  induction l with
+  | nil => simp
+  | cons x xs ih =>
+    simp only [List.flatten_cons, List.length_append, List.length_cons]
+    rw [ih (fun y hy => h y (List.mem_cons_of_mem _ hy)), h x (List.mem_cons_self)]
+    rw [Nat.mul_add]; omega
+
+def StdPathM.WellTyped (p : StdPathM) : Prop :=
+  ∀ s ∈ p.segments, s.info.WellTyped ∧ ∀ h ∈ s.hops, h.WellTyped
+
+/-- all hop fields of the path in order -/
+def StdPathM.allHops (p : StdPathM) : List HopFieldM := p.segments.flatMap (·.hops)
+
+theorem hopsFlat_eq (segs : List Segment) :
+    (segs.map (fun sg => (sg.hops.map encodeHop).flatten)).flatten = ((segs.flatMap (·.hops)).map encodeHop).flatten := by
+  induction segs with
+  | nil => rfl
+  | cons s ss ih => simp only [List.map_cons, List.flatten_cons, List.flatMap_cons, List.map_append, List.flatten_append, ih]
+
+theorem map_decode_encode_info (l : List InfoFieldM) (h : ∀ i ∈ l, i.WellTyped) :
+    (l.map encodeInfo).map decodeInfo = l := by
+  induction l with
+  | nil => rfl
+  | cons x xs ih =>
+    simp only [List.map_cons]
+    rw [decodeInfo_encodeInfo x (h x (List.mem_cons_self)), ih (fun y hy => h y (List.mem_cons_of_mem _ hy))]
+
+theorem map_decode_encode_hop (l : List HopFieldM) (h : ∀ i ∈ l, i.WellTyped) :
+    (l.map encodeHop).map decodeHop = l := by
+  induction l with
+  | nil => rfl
+  | cons x xs ih =>
+    simp only [List.map_cons]
+    rw [decodeHop_encodeHop x (h x (List.mem_cons_self)), ih (fun y hy => h y (List.mem_cons_of_mem _ hy))]
+
+theorem hopCount_eq (p : StdPathM) : p.hopCount = p.allHops.length := by
+  unfold StdPathM.hopCount StdPathM.allHops
+  have : ∀ (l : List Segment) (a : Nat), (l.map (·.hops.length)).foldl (· + ·) a = a + (l.flatMap (·.hops)).length := by
+    intro l
+    induction l with
+    | nil => intro a; simp
+    | cons x xs ih => intro a; simp only [List.map_cons, List.foldl_cons, List.flatMap_cons, List.length_append]; rw [ih]; omega
+  rw [this]; omega
+
+
+theorem build_spec (segs : List Segment) (tail : List Nat) (rest : List HopFieldM) :
+    decodeStd.build (segs.map (·.info)) (segs.map (·.hops.length) ++ tail) (segs.flatMap (·.hops) ++ rest) = segs := by
+  induction segs with
+  | nil => cases tail <;> rfl
+  | cons s ss ih =>
+    simp only [List.map_cons, List.cons_append, List.flatMap_cons, List.append_assoc, decodeStd.build]
+    rw [List.take_append_of_le_length (Nat.le_refl _), List.take_length,
+      List.drop_append_of_le_length (Nat.le_refl _), List.drop_length, List.nil_append, ih]
+
+theorem segSizes_spec (p : StdPathM) (hr : p.Representable) :
+    p.segSizes.1 ≤ 63 ∧ p.segSizes.2.1 ≤ 63 ∧ p.segSizes.2.2 ≤ 63 ∧
+    infoCount p.segSizes.1 p.segSizes.2.1 p.segSizes.2.2 = p.segments.length ∧
+    Layout.hopCount p.segSizes.1 p.segSizes.2.1 p.segSizes.2.2 = p.allHops.length ∧
+    decodeStd.build (p.segments.map (·.info)) [p.segSizes.1, p.segSizes.2.1, p.segSizes.2.2] p.allHops = p.segments := by
+  obtain ⟨h1, h3, hs, _, _, _, _⟩ := hr
+  obtain ⟨ci, ch, segs⟩ := p
+  simp only [] at h1 h3 hs ⊢
+  match segs, h1, h3, hs with
+  | [a], _, _, hs =>
+    have ha := hs a (by simp)
+    have e1 : a.hops.length % 256 = a.hops.length := by omega
+    have hsz : (StdPathM.mk ci ch [a]).segSizes = (a.hops.length, 0, 0) := by
+      simp only [StdPathM.segSizes]; simp [e1]
+    rw [hsz]
+    dsimp only
+    refine ⟨by omega, by omega, by omega, ?_, ?_, ?_⟩
+    · have p1 : 0 < a.hops.length := by omega
+      simp [infoCount, p1]
+    · simp [Layout.hopCount, StdPathM.allHops]
+    · have := build_spec [a] [0, 0] []
+      simpa [StdPathM.allHops] using this
+  | [a, b], _, _, hs =>
+    have ha := hs a (by simp)
+    have hb := hs b (by simp)
+    have e1 : a.hops.length % 256 = a.hops.length := by omega
+    have e2 : b.hops.length % 256 = b.hops.length := by omega
+    have hsz : (StdPathM.mk ci ch [a, b]).segSizes = (a.hops.length, b.hops.length, 0) := by
+      simp only [StdPathM.segSizes]; simp [e1, e2]
+    rw [hsz]
+    dsimp only
+    refine ⟨by omega, by omega, by omega, ?_, ?_, ?_⟩
+    · have p1 : 0 < a.hops.length := by omega
+      have p2 : 0 < b.hops.length := by omega
+      simp [infoCount, p1, p2]
+    · simp [Layout.hopCount, StdPathM.allHops]
+    · have := build_spec [a, b] [0] []
+      simpa [StdPathM.allHops] using this
+  | [a, b, c], _, _, hs =>
+    have ha := hs a (by simp)
+    have hb := hs b (by simp)
+    have hc := hs c (by simp)
+    have e1 : a.hops.length % 256 = a.hops.length := by omega
+    have e2 : b.hops.length % 256 = b.hops.length := by omega
+    have e3 : c.hops.length % 256 = c.hops.length := by omega
+    have hsz : (StdPathM.mk ci ch [a, b, c]).segSizes = (a.hops.length, b.hops.length, c.hops.length) := by
+      simp only [StdPathM.segSizes]; simp [e1, e2, e3]
+    rw [hsz]
+    dsimp only
+    refine ⟨by omega, by omega, by omega, ?_, ?_, ?_⟩
+    · have p1 : 0 < a.hops.length := by omega
+      have p2 : 0 < b.hops.length := by omega
+      have p3 : 0 < c.hops.length := by omega
+      simp [infoCount, p1, p2, p3]
+    · simp [Layout.hopCount, StdPathM.allHops]; omega
+    · have := build_spec [a, b, c] [] []
+      simpa [StdPathM.allHops] using this
+
+
+theorem allHops_wt (p : StdPathM) (hw : p.WellTyped) : ∀ h ∈ p.allHops, h.WellTyped := by
+  intro h hh
+  unfold StdPathM.allHops at hh
+  obtain ⟨s, hs, hhs⟩ := List.mem_flatMap.1 hh
+  exact (hw s hs).2 h hhs
+
+/-- the three parts of an encoded standard path -/
+theorem encodeStd_parts (p : StdPathM) :
+    encodeStd p =
+      writeFields (zeros StdPathMeta.SIZE_BYTES)
+        [(StdPathMeta.CURR_INFO_FIELD_RNG, p.currInfo), (StdPathMeta.CURR_HOP_FIELD_RNG, p.currHop),
+         (StdPathMeta.SEG0_LEN_RNG, p.segSizes.1), (StdPathMeta.SEG1_LEN_RNG, p.segSizes.2.1),
+         (StdPathMeta.SEG2_LEN_RNG, p.segSizes.2.2)]
+      ++ ((p.segments.map (·.info)).map encodeInfo).flatten ++ (p.allHops.map encodeHop).flatten := by
+  unfold encodeStd StdPathM.allHops
+  simp only [List.map_map, hopsFlat_eq]
+  rfl
+
+theorem decodeStd_encodeStd (p : StdPathM) (hr : p.Representable) (hw : p.WellTyped) :
+    decodeStd (encodeStd p) = p ∧ (encodeStd p).length = p.requiredSize := by
+  obtain ⟨s0le, s1le, s2le, hic, hhc, hbuild⟩ := segSizes_spec p hr
+  obtain ⟨r1, r3, rs, rch, rch63, rci, _⟩ := hr
+  rw [encodeStd_parts]
+  generalize hM : writeFields (zeros StdPathMeta.SIZE_BYTES)
+        [(StdPathMeta.CURR_INFO_FIELD_RNG, p.currInfo), (StdPathMeta.CURR_HOP_FIELD_RNG, p.currHop),
+         (StdPathMeta.SEG0_LEN_RNG, p.segSizes.1), (StdPathMeta.SEG1_LEN_RNG, p.segSizes.2.1),
+         (StdPathMeta.SEG2_LEN_RNG, p.segSizes.2.2)] = M
+  have hMl : M.length = StdPathMeta.SIZE_BYTES := by
+    rw [← hM, writeFields_length _ _ (by simp only [List.map]; decide), zeros_length]
+  have e4 : StdPathMeta.SIZE_BYTES = 4 := by decide
+  have e8 : InfoField.SIZE_BYTES = 8 := by decide
+  have e12 : HopField.SIZE_BYTES = 12 := by decide
+  -- the reads of the meta header
+  have rd : ∀ (R : BitRange), R.wf → R.byteHi ≤ StdPathMeta.SIZE_BYTES →
+      okFor [StdPathMeta.CURR_INFO_FIELD_RNG, StdPathMeta.CURR_HOP_FIELD_RNG, StdPathMeta.SEG0_LEN_RNG,
+        StdPathMeta.SEG1_LEN_RNG, StdPathMeta.SEG2_LEN_RNG] StdPathMeta.SIZE_BYTES R = true →
+      readBits M R = finalVal [(StdPathMeta.CURR_INFO_FIELD_RNG, p.currInfo), (StdPathMeta.CURR_HOP_FIELD_RNG, p.currHop),
+         (StdPathMeta.SEG0_LEN_RNG, p.segSizes.1), (StdPathMeta.SEG1_LEN_RNG, p.segSizes.2.1),
+         (StdPathMeta.SEG2_LEN_RNG, p.segSizes.2.2)] R (readBits (zeros StdPathMeta.SIZE_BYTES) R) := by
+    intro R h1 h2 h3
+    rw [← hM]
+    exact readBits_writeFields _ _ R h1 (by rw [zeros_length]; exact h2) (by simpa [zeros_length] using h3)
+  have hs0 : readBits M StdPathMeta.SEG0_LEN_RNG = p.segSizes.1 := by
+    rw [rd _ (by decide) (by decide) (by decide)]
+    simp only [finalVal, List.foldl_cons, List.foldl_nil]
+    simp (config := {decide := true}) only [StdPathMeta.CURR_INFO_FIELD_RNG, StdPathMeta.CURR_HOP_FIELD_RNG,
+      StdPathMeta.SEG0_LEN_RNG, StdPathMeta.SEG1_LEN_RNG, StdPathMeta.SEG2_LEN_RNG, BitRange.mk.injEq, BitRange.width, if_true, if_false]
+    exact Nat.mod_eq_of_lt (by omega)
+  have hs1 : readBits M StdPathMeta.SEG1_LEN_RNG = p.segSizes.2.1 := by
+    rw [rd _ (by decide) (by decide) (by decide)]
+    simp only [finalVal, List.foldl_cons, List.foldl_nil]
+    simp (config := {decide := true}) only [StdPathMeta.CURR_INFO_FIELD_RNG, StdPathMeta.CURR_HOP_FIELD_RNG,
+      StdPathMeta.SEG0_LEN_RNG, StdPathMeta.SEG1_LEN_RNG, StdPathMeta.SEG2_LEN_RNG, BitRange.mk.injEq, BitRange.width, if_true, if_false]
+    exact Nat.mod_eq_of_lt (by omega)
+  have hs2 : readBits M StdPathMeta.SEG2_LEN_RNG = p.segSizes.2.2 := by
+    rw [rd _ (by decide) (by decide) (by decide)]
+    simp only [finalVal, List.foldl_cons, List.foldl_nil]
+    simp (config := {decide := true}) only [StdPathMeta.CURR_INFO_FIELD_RNG, StdPathMeta.CURR_HOP_FIELD_RNG,
+      StdPathMeta.SEG0_LEN_RNG, StdPathMeta.SEG1_LEN_RNG, StdPathMeta.SEG2_LEN_RNG, BitRange.mk.injEq, BitRange.width, if_true, if_false]
+    exact Nat.mod_eq_of_lt (by omega)
+  have hci : readBits M StdPathMeta.CURR_INFO_FIELD_RNG = p.currInfo := by
+    rw [rd _ (by decide) (by decide) (by decide)]
+    simp only [finalVal, List.foldl_cons, List.foldl_nil]
+    simp (config := {decide := true}) only [StdPathMeta.CURR_INFO_FIELD_RNG, StdPathMeta.CURR_HOP_FIELD_RNG,
+      StdPathMeta.SEG0_LEN_RNG, StdPathMeta.SEG1_LEN_RNG, StdPathMeta.SEG2_LEN_RNG, BitRange.mk.injEq, BitRange.width, if_true, if_false]
+    exact Nat.mod_eq_of_lt (by omega)
+  have hch : readBits M StdPathMeta.CURR_HOP_FIELD_RNG = p.currHop := by
+    rw [rd _ (by decide) (by decide) (by decide)]
+    simp only [finalVal, List.foldl_cons, List.foldl_nil]
+    simp (config := {decide := true}) only [StdPathMeta.CURR_INFO_FIELD_RNG, StdPathMeta.CURR_HOP_FIELD_RNG,
+      StdPathMeta.SEG0_LEN_RNG, StdPathMeta.SEG1_LEN_RNG, StdPathMeta.SEG2_LEN_RNG, BitRange.mk.injEq, BitRange.width, if_true, if_false]
+    exact Nat.mod_eq_of_lt (by omega)
+  generalize hI : ((p.segments.map (·.info)).map encodeInfo).flatten = I
+  generalize hH : (p.allHops.map encodeHop).flatten = H
+  have hIl : I.length = 8 * p.segments.length := by
+    rw [← hI, flatten_length_const 8 _ (by intro x hx; obtain ⟨i, _, rfl⟩ := List.mem_map.1 hx; rw [encodeInfo_length, e8])]
+    simp
+  have hHl : H.length = 12 * p.allHops.length := by
+    rw [← hH, flatten_length_const 12 _ (by
+      intro x hx; obtain ⟨h, hh, rfl⟩ := List.mem_map.1 hx
+      rw [encodeHop_length h (allHops_wt p hw h hh), e12])]
+    simp
+  have hseg : segFields (M ++ I ++ H) 0 = p.segSizes := by
+    unfold segFields
+    have : ((M ++ I ++ H).drop 0).take StdPathMeta.SIZE_BYTES = M := by
+      rw [List.drop_zero, List.append_assoc, List.take_append_of_le_length (by omega), List.take_of_length_le (by omega)]
+    simp only [this, hs0, hs1, hs2]
+  constructor
+  · unfold decodeStd
+    simp only [hseg, hic, hhc]
+    have hd1 : (M ++ I ++ H).drop StdPathMeta.SIZE_BYTES = I ++ H := by
+      rw [List.append_assoc, List.drop_append_of_le_length (by omega), List.drop_of_length_le (by omega), List.nil_append]
+    have hd2 : (M ++ I ++ H).drop (StdPathMeta.SIZE_BYTES + p.segments.length * InfoField.SIZE_BYTES) = H ++ [] := by
+      rw [e8]
+      rw [List.drop_append_of_le_length (by simp only [List.length_append]; omega),
+        List.drop_of_length_le (by simp only [List.length_append]; omega), List.nil_append, List.append_nil]
+    have hinfos : (chunks InfoField.SIZE_BYTES p.segments.length (I ++ H)).map decodeInfo = p.segments.map (·.info) := by
+      have := chunks_flatten InfoField.SIZE_BYTES ((p.segments.map (·.info)).map encodeInfo) H
+        (by intro x hx; obtain ⟨i, _, rfl⟩ := List.mem_map.1 hx; exact encodeInfo_length i)
+      simp only [List.length_map] at this
+      rw [← hI, this, map_decode_encode_info _ (by
+        intro i hi; obtain ⟨s, hs, rfl⟩ := List.mem_map.1 hi; exact (hw s hs).1)]
+    have hhops : (chunks HopField.SIZE_BYTES p.allHops.length (H ++ [])).map decodeHop = p.allHops := by
+      have := chunks_flatten HopField.SIZE_BYTES (p.allHops.map encodeHop) []
+        (by intro x hx; obtain ⟨h, hh, rfl⟩ := List.mem_map.1 hx; exact encodeHop_length h (allHops_wt p hw h hh))
+      simp only [List.length_map] at this
+      rw [← hH, this, map_decode_encode_hop _ (allHops_wt p hw)]
+    rw [hd1, hd2, hinfos, hhops, hbuild]
+    rw [readBits_append_left _ _ _ (by decide) (by rw [List.length_append, hMl]; have : StdPathMeta.CURR_INFO_FIELD_RNG.byteHi ≤ StdPathMeta.SIZE_BYTES := by decide
+                                                   omega),
+      readBits_append_left _ _ _ (by decide) (by rw [hMl]; decide), hci]
+    rw [readBits_append_left _ _ _ (by decide) (by rw [List.length_append, hMl]; have : StdPathMeta.CURR_HOP_FIELD_RNG.byteHi ≤ StdPathMeta.SIZE_BYTES := by decide
+                                                   omega),
+      readBits_append_left _ _ _ (by decide) (by rw [hMl]; decide), hch]
+  · simp only [List.length_append, hMl, hIl, hHl]
+    unfold StdPathM.requiredSize stdDataSize
+    simp only [hic, hhc, e8, e12]
+    omega
 
 end ScionVerif.Packet
